@@ -62,6 +62,9 @@ def extract(profile="dev", force=False):
         if os.path.exists(out) and not force:
             return out
         target = os.path.join(CACHE, "target-" + profile)
+        # one extraction per target directory at a time (checks on different trees may run concurrently: scratch copies, mutation controls)
+        tlock = open(os.path.join(CACHE, "target-%s.lock" % profile), "w")
+        fcntl.flock(tlock, fcntl.LOCK_EX)
         # force the wrapper to run on the workspace member: remove its fingerprints
         fpdir = os.path.join(target, "release" if profile == "release" else "debug", ".fingerprint")
         if os.path.isdir(fpdir):
@@ -84,11 +87,16 @@ def extract(profile="dev", force=False):
             cmd.append("--release")
         t = time.time()
         p = subprocess.run(cmd, env=env, stdout=subprocess.PIPE, stderr=subprocess.STDOUT, text=True)
+        if p.returncode != 0 or not os.path.exists(tmp):
+            fcntl.flock(tlock, fcntl.LOCK_UN)
+            tlock.close()
         if p.returncode != 0:
             raise FactsError("cargo check failed (the tree does not compile?):\n" + p.stdout[-4000:])
         if not os.path.exists(tmp):
             raise FactsError("driver did not run (no facts file written):\n" + p.stdout[-2000:])
         os.replace(tmp, out)
+        fcntl.flock(tlock, fcntl.LOCK_UN)
+        tlock.close()
         sys.stderr.write("[h8facts] extracted %s facts in %.1fs -> %s\n" % (profile, time.time() - t, out))
     # keep the cache small
     try:
